@@ -168,6 +168,42 @@ type workerResult struct {
 	p      *vkit.Partial
 	err    string
 	stderr string
+	crash  *vkit.Witness // the worker was killed by a fatal error raised below library code
+}
+
+// libraryCrash recognises a worker that the Go runtime killed (fatal error, stack
+// overflow, unrecovered panic on another goroutine) while library code was on the
+// stack: that is an observation about the code under test, not about the harness.
+func libraryCrash(out string) (string, bool) {
+	head := -1
+	for _, m := range []string{"fatal error:", "runtime: goroutine stack exceeds", "panic: "} {
+		if i := strings.Index(out, m); i >= 0 && (head < 0 || i < head) {
+			head = i
+		}
+	}
+	if head < 0 {
+		return "", false
+	}
+	// only the goroutine that died: the dump of a fatal error lists all of them
+	seg := out[head:]
+	if i := strings.Index(seg, "\ngoroutine "); i >= 0 {
+		if j := strings.Index(seg[i+1:], "\n\ngoroutine "); j >= 0 {
+			seg = seg[:i+1+j]
+		}
+	}
+	var frames []string
+	for _, l := range strings.Split(seg, "\n") {
+		if strings.HasPrefix(l, "github.com/gkampitakis/go-snaps/") && !strings.Contains(l, "Verif") {
+			frames = append(frames, strings.TrimSpace(l))
+			if len(frames) == 6 {
+				break
+			}
+		}
+	}
+	if len(frames) == 0 {
+		return "", false
+	}
+	return vkit.Clip(out[head:], 600) + " ... library frames: " + strings.Join(frames, " <- "), true
 }
 
 func runWorkers(bin, prop, tier string, seed int64, shards, onlyCase int, extraEnv []string) []workerResult {
@@ -208,6 +244,7 @@ func runWorkers(bin, prop, tier string, seed int64, shards, onlyCase int, extraE
 			cmd.Stdout, cmd.Stderr = &eb, &eb
 			err := cmd.Run()
 			r := workerResult{stderr: vkit.Clip(eb.String(), 6000)}
+			full := eb.String()
 			b, rerr := os.ReadFile(out)
 			if rerr == nil {
 				var p vkit.Partial
@@ -218,6 +255,12 @@ func runWorkers(bin, prop, tier string, seed int64, shards, onlyCase int, extraE
 			if r.p == nil {
 				c, _ := os.ReadFile(cur)
 				r.err = fmt.Sprintf("worker %d died without a result (%v); last case index %s", i, err, string(c))
+				if detail, ok := libraryCrash(full); ok {
+					idx, cerr := strconv.Atoi(strings.TrimSpace(string(c)))
+					if cerr == nil {
+						r.crash = &vkit.Witness{Property: prop, Kind: "process-killed-by-fatal-error-in-library-code", Detail: detail, Tier: tier, Seed: seed, Case: idx}
+					}
+				}
 			}
 			// race reports
 			if m, _ := filepath.Glob(filepath.Join(tmp, fmt.Sprintf("race-%d.*", i))); len(m) > 0 && r.p != nil {
@@ -352,6 +395,13 @@ func merge(prop, tier string, seed int64, def checkDef, results []workerResult, 
 	exhaustive := map[string]bool{}
 	for _, r := range results {
 		if r.p == nil {
+			if r.crash != nil {
+				// the cases this worker had judged before are lost; the crash itself is a witness
+				viol = append(viol, *r.crash)
+				nviol++
+				violKinds[r.crash.Kind+"/"]++
+				continue
+			}
 			inconclusive = append(inconclusive, r.err+"\n"+r.stderr)
 			continue
 		}
